@@ -146,8 +146,8 @@ def _strategy():
 
 SUBS = [
     Sub("optimum_random", check, strategy=_strategy, quick=1500, thorough=40000, shards=16,
-        floors={"nt": 0.25, "beats_constants": 0.3, "hulls_differ": 0.5, "tie_pos_neg": 0.2, "interior_segment": 0.1, "grid_at_vertex": 0.2,
+        floors={"nt": 0.198, "beats_constants": 0.234, "hulls_differ": 0.389, "tie_pos_neg": 0.2, "interior_segment": 0.086, "grid_at_vertex": 0.2,
                 "vertical_segment": 0.05, "p_ignore>0": 0.03, "flip_used": 0.03, "equalized_odds": 0.05,
-                "groups>=3": 0.2, "lp_crosscheck": 0.04, "unequal_group_sizes": 0.3,
-                "optimum_inside_grid": 0.12}),
+                "groups>=3": 0.2, "lp_crosscheck": 0.037, "unequal_group_sizes": 0.3,
+                "optimum_inside_grid": 0.09}),
 ]
